@@ -15,14 +15,16 @@ use serde_json::{Value, json};
 
 #[cfg(feature = "k_naming")]
 mod k_naming;
-#[cfg(feature = "k_gen")]
+#[cfg(any(feature = "k_gen", feature = "k_valid"))]
 mod k_gen;
 #[cfg(feature = "k_path")]
 mod k_path;
-#[cfg(any(feature = "k_gen", feature = "k_path"))]
+#[cfg(any(feature = "k_gen", feature = "k_path", feature = "k_valid"))]
 mod facts;
 #[cfg(feature = "k_gen")]
 mod k_resp;
+#[cfg(feature = "k_valid")]
+mod k_valid;
 
 pub type OpResult = Result<Value, String>;
 
@@ -39,6 +41,8 @@ fn dispatch(op: &str, input: &mut Value) -> OpResult {
     "resp" => k_resp::eval(op, input),
     #[cfg(feature = "k_gen")]
     "client" | "server" => k_resp::eval_op(op, input),
+    #[cfg(feature = "k_valid")]
+    "valid" => k_valid::eval(op, input),
     _ => Err(format!("unknown-op:{op}")),
   }
 }
